@@ -97,7 +97,8 @@ def _gen_chain(rng, is_machine):
                 "reload": rng.choice(["from_path", "from_file", "load_same", "load_other_shape",
                                       "load_rollback"]),
                 "drift": rng.choice([0.0, 1e-9, 1e-7, 1e-6, 1e-3]),
-                "load_by": rng.choice(["path", "file"])}
+                "load_by": rng.choice(["path", "file"]),
+                "target": rng.choice([None, None, "map_machine", "raised_floors"])}
         if rng.random() < 0.15:
             # a service loads many other objects (other clients' models) between two generations
             step["others"] = rng.choice([1, 2, 3, 5, 9, 17, 20])
@@ -573,10 +574,21 @@ def _run_machine(case, rec, store):
                 elif how == "load_same":
                     if prior is not None:
                         new = GMMMachine(case["c"], trainer="map", ubm=prior)
+                    elif st.get("target") == "map_machine":
+                        # an existing MAP machine is recycled to hold an ML model
+                        p3 = GMMMachine(case["c"])
+                        p3.means = np.full((case["c"], case["d"]), 0.5)
+                        p3.variances = np.full((case["c"], case["d"]), 2.0)
+                        new = GMMMachine(case["c"], trainer="map", ubm=p3)
+                        rec.probe("ml_file_loaded_into_a_map_machine")
                     else:
                         new = GMMMachine(case["c"])
                     new.means = np.zeros((case["c"], case["d"]))
                     new.variances = np.ones((case["c"], case["d"]))
+                    if st.get("target") == "raised_floors":
+                        # the recycled machine has floors above the stored variances
+                        new.variance_thresholds = 10.0 * float(np.max(np.asarray(live.variances)))
+                        rec.probe("load_target_with_floors_above_the_stored_variances")
                 else:
                     # an object of another shape (for MAP: adapted from another-shaped prior,
                     # then handed the right prior through its public attribute)
